@@ -280,6 +280,10 @@ enum : uint16_t {
 // isatty answers (C19); -1 = pass through
 void set_isatty(int fd1_answer, int fd2_answer);
 
+// getpid() answers this value while > 0 (a process id written into a log line must not differ between two
+// executions of one plan); 0 = the real pid
+void set_fake_pid(int pid);
+
 // environment normalisation; call first thing in main()
 void init_env();
 
